@@ -143,6 +143,17 @@ def translate(repo):
         "ByteArraydata(n);if(!_file&&!open(_path)){data.clear();returndata;}data.resize(read(&data[0],n));returndata;", "File::firstBytes()")
     has(r"bool\s+File::put\s*\(\s*const\s+ByteArray\s*&\s*data\s*\)\s*\{",
         "if(!_file&&!open(_path,WRITE))returnfalse;returnwrite(data.data(),data.length())==data.length();", "File::put()")
+    has(r"void\s+File::close\s*\(\s*\)\s*\{", "if(_file)fclose(_file);_file=0;_info=FileInfo();", "File::close() (closes the handle and discards the cached stat information)")
+    has(r"Long\s+File::size\s*\(\s*\)\s*const\s*\{", "if(!_info)_info=getFileInfo(_path);return_info.size;", "File::size()")
+    if "_info" in _flat(body):
+        raise TranslateError("File::open now touches the cached stat information `_info` (the model keeps it across open())")
+    fhf = _flat(fh)
+    for needle, what in (("boolexists()const{_info.clear();returncreationDate().time()!=0;}", "File::exists()"),
+                         ("boolisFile()const{returncreationDate().time()!=0&&!isDirectory();}", "File::isFile()"),
+                         ("File(constFile&f):_file(0),_path(f._path),_info(f._info),_endian(f._endian)", "File copy constructor"),
+                         ("voidflush(){fflush(_file);}", "File::flush()")):
+        if needle not in fhf:
+            raise TranslateError("File.h: %s no longer reads `%s`" % (what, needle))
     has(r"int\s+File::read\s*\(\s*void\s*\*\s*p\s*,\s*int\s+n\s*\)\s*\{", "return(int)fread(p,1,n,_file);", "File::read()")
     has(r"int\s+File::write\s*\(\s*const\s+void\s*\*\s*p\s*,\s*int\s+n\s*\)\s*\{", "return(int)fwrite(p,1,n,_file);", "File::write()")
     # ---- Directory::copy / move (POSIX half)
@@ -306,6 +317,15 @@ def reference(line):
         if op == "xput":
             b = tok_bytes(t[2])
             return "%d %s raw=1" % (len(b), show_bytes(b))
+        if op == "xobj":
+            # one object: open, write, query while open, write, close -> size(), [text()], content() of the same object
+            b = tok_bytes(t[4]) + tok_bytes(t[5])
+            if t[1] == "t":
+                tx = ref_text(b)
+                if tx is None or (len(b) >= 2 and b[:2] in (b"\xff\xfe", b"\xfe\xff")):
+                    return None
+                return "%d %s %s" % (len(b), show_bytes(tx), show_bytes(b))
+            return "%d %s" % (len(b), show_bytes(b))
         if op == "xseq":
             b1, b2 = tok_bytes(t[2]), tok_bytes(t[4])
             b = b1 + b2 if t[3] in ("tapp", "fa") else b2
@@ -572,7 +592,138 @@ def gen(rng, tier):
     # ---- (D) histories on one path (and a second one for copy/move)
     for i in range(250 if quick else 5000):
         cases.append(gen_history(rng, xdev_ok))
+    # ---- (E) persistent objects: one File/TextFile object written through, queried while open, closed, read back
+    for i in range(260 if quick else 4000):
+        n1 = rng.choice(OBJ_SIZES)
+        n2 = rng.choice(OBJ_SIZES)
+        cases.append(["xobj %s %s %s %s %s" % (rng.choice("ft"), rng.choice("wa"), rng.choice(OBJ_QUERIES + ["none"]),
+                                              btok(rng, n1, nulfree=True), btok(rng, n2, nulfree=True))])
+    for i in range(320 if quick else 5000):
+        cases.append(gen_obj_history(rng))
     return cases
+
+
+# Protocol of the h-operations (persistent objects hnew/hopen/hclose/hflush/hw/happ/hput/hsh/hsize/hexists/hisfile/hisdir/hmtime/
+# hcontent/hfirst/hr/htext/hlines), applied identically by harness/c17.cpp and lean/Driver/C17.lean from the operation history alone:
+#  * an object is DIRTY after a write through it until it is flushed or closed; while a path has a dirty object, how much is on disk is
+#    stdio's business (not the property's): sizes of that path are printed `?`, reads of it are refused (`err dirty`);
+#  * a stat-backed query on an object while its path is dirty makes the object POISONED (its cache holds an undetermined size): its
+#    hsize prints `?`, reads through it are refused (`err poisoned`) — until close(), which must discard the cache (the property);
+#  * text()/lines() leave the object SPENT (position not modelled) until it is closed or reopened; a reader whose path was written
+#    since it was opened is STALE; two writers on one path are refused (`err busy`); hopen on an open object is close() + open();
+#  * observations through temporaries (raw size content text lines exists first) leave the objects alone, every other non-h operation
+#    calls close() on all of them first.
+OBJ_SIZES = [0, 1, 2, 3, 100, 255, 1000, 4095, 4096, 4097, 5000, 8191, 8192, 8193, 12288, 70000, 100000]
+OBJ_QUERIES = ["size", "exists", "isfile", "isdir", "mtime"]
+H_QUERIES = ["hsize", "hsize", "hexists", "hisfile", "hisdir", "hmtime"]
+
+
+def _hwrite(rng, h, kind, small=False):
+    n = rng.choice([0, 1, 5, 100, 255]) if small else rng.choice(OBJ_SIZES)
+    if kind == "t":
+        op = rng.choice(["hw", "happ", "hput", "hsh"])
+    else:
+        op = rng.choice(["hw", "hw", "hput", "hsh"])
+    return "%s %d %s" % (op, h, btok(rng, n, nulfree=rng.random() < 0.8))
+
+
+def gen_obj_history(rng):
+    """histories on PERSISTENT File/TextFile objects (several per path, each open or closed): open / lazily opening writers /
+    flush / stat-backed queries on open or closed objects / close / content, text, lines, firstBytes, read through the same
+    object or a fresh temporary / reopen"""
+    c = []
+    shape = rng.random()
+    main = rng.choice(PATHS)
+    if shape < 0.45:
+        # the window of the cached stat information: write, query while open (possibly unflushed), write, close, read back
+        k = rng.choice("ft")
+        c.append("hnew 0 %s %s" % (main, k))
+        if rng.random() < 0.3:
+            c.append("rawput %s %s" % (main, btok(rng, rng.choice([0, 3, 100, 5000]))))
+            c.append("hnew 0 %s %s" % (main, k))
+        if rng.random() < 0.3:
+            c.append(rng.choice(H_QUERIES) + " 0")            # a query before opening: cached while closed
+        if k == "t" and rng.random() < 0.4:
+            pass                                               # lazily opening writers of TextFile
+        else:
+            c.append("hopen 0 " + rng.choice(["w", "w", "a", "a", "rw"]))
+        for _ in range(rng.randrange(1, 4)):
+            c.append(_hwrite(rng, 0, k))
+            r = rng.random()
+            if r < 0.6:
+                c.append(rng.choice(H_QUERIES) + " 0")
+            elif r < 0.75:
+                c.append("hflush 0")
+                c.append(rng.choice(H_QUERIES) + " 0")
+            if rng.random() < 0.2:
+                c.append("size " + main)
+        c.append("hclose 0")
+        tail = ["hsize 0", "hcontent 0", "raw " + main, "size " + main, "content " + main]
+        if k == "t":
+            tail = ["hsize 0", rng.choice(["htext 0", "hlines 0", "hcontent 0"]), "raw " + main, "text " + main]
+        if rng.random() < 0.3:
+            tail.insert(0, rng.choice(["hexists 0", "hisfile 0"]))
+        c += tail
+        if rng.random() < 0.5:
+            # reopen the same object and go round again
+            c.append("hopen 0 " + rng.choice(["a", "w", "r"]))
+            if c[-1].endswith("r"):
+                c += ["hr 0 %d" % rng.choice([1, 100, 4096, 100000]), "hsize 0", "hclose 0", "hsize 0"]
+            else:
+                c += [_hwrite(rng, 0, k), rng.choice(H_QUERIES) + " 0", "hclose 0", "hsize 0", "hcontent 0", "raw " + main]
+        return c
+    if shape < 0.7:
+        # two objects on one path: a writer and an observer that queries while the writer has unflushed data
+        k0, k1 = rng.choice("ft"), rng.choice("ft")
+        c += ["hnew 0 %s %s" % (main, k0), "hnew 1 %s %s" % (main, k1)]
+        if rng.random() < 0.5:
+            c.append("hsize 1")
+        c.append("hopen 0 " + rng.choice(["w", "a"]))
+        for _ in range(rng.randrange(1, 4)):
+            c.append(_hwrite(rng, 0, k0))
+            c.append(rng.choice(H_QUERIES) + " " + rng.choice("01"))
+            if rng.random() < 0.3:
+                c.append("hflush 0")
+            if rng.random() < 0.3:
+                c.append("hopen 1 " + rng.choice(["r", "a", "w"]))
+        c.append("hclose 0")
+        c += ["hsize 0", "hsize 1", "hclose 1", "hsize 1", "hcontent 1", "hcontent 0", "raw " + main]
+        if k1 == "t":
+            c += ["hclose 1", "htext 1"]
+        return c
+    # free mixture
+    nh = rng.randrange(1, 4)
+    kinds = []
+    for h in range(nh):
+        kinds.append(rng.choice("ft"))
+        c.append("hnew %d %s %s" % (h, main if rng.random() < 0.8 else rng.choice(PATHS), kinds[h]))
+    for _ in range(rng.randrange(6, 26)):
+        h = rng.randrange(nh)
+        r = rng.random()
+        if r < 0.25:
+            c.append(_hwrite(rng, h, kinds[h], small=rng.random() < 0.6))
+        elif r < 0.4:
+            c.append("hopen %d %s" % (h, rng.choice(["r", "w", "a", "a", "rw"])))
+        elif r < 0.52:
+            c.append("hclose %d" % h)
+        elif r < 0.58:
+            c.append("hflush %d" % h)
+        elif r < 0.75:
+            c.append("%s %d" % (rng.choice(H_QUERIES), h))
+        elif r < 0.9:
+            op = rng.choice(["hcontent", "hcontent", "htext", "hlines", "hfirst", "hr"])
+            if op in ("hfirst", "hr"):
+                c.append("%s %d %d" % (op, h, rng.choice([0, 1, 10, 4096, 100000])))
+            else:
+                c.append("%s %d" % (op, h))
+        elif r < 0.96:
+            c.append(rng.choice(["size", "content", "raw", "text", "lines", "exists"]) + " " + main)
+        else:
+            c.append(rng.choice(["put %s %s" % (main, btok(rng, 10)), "rm " + main, "hnew %d %s %s" % (h, main, kinds[h])]))
+    for h in range(nh):
+        c += ["hclose %d" % h, "hsize %d" % h, "hcontent %d" % h]
+    c.append("raw " + main)
+    return c
 
 
 def gen_history(rng, xdev_ok):
@@ -681,6 +832,10 @@ RULE = ("cases = (A) every size class (0..39, around 254k/255k, 4096, 65536k, up
         "NUL-free texts with LF / CRLF / CR CR LF / lone CR and line lengths 0..2000 concentrated around multiples of 254, through lines(), "
         "readLine() and readLine(String&) sessions; (C) scalar sequences in UTF-8-BOM / UTF-16LE / UTF-16BE / no BOM, plus hostile bytes behind "
         "BOMs; (D) random histories of put/write/append/stream/open/close/read/seek/copy/move/remove on four paths in two directories; "
+        "(E) persistent objects: xobj (one object: open, write, stat-backed query while open, write, close, then size/text/content of the "
+        "same object, sizes straddling the 4096-byte stdio buffer) and histories on up to 4 File/TextFile objects per case (several on one "
+        "path; explicit and lazy opens, flush, queries on open and closed objects, close, read back through the same object or a fresh "
+        "one, reopen); "
         "non-trivial = distinct case with at least one non-empty byte-string argument")
 
 
@@ -708,14 +863,21 @@ def distribution(cases):
     bom = {"utf8bom": 0, "utf16le": 0, "utf16be": 0, "none": 0}
     hist = 0
     histlen = 0
+    objh = 0
+    objq = 0
     for c in cases:
-        if any(l.startswith(("open", "put", "tput", "tapp")) for l in c) and not c[0].startswith("x"):
+        if any(l.startswith("hnew") for l in c):
+            objh = objh + 1
+            if any(c[i].startswith(("hw", "happ", "hput", "hsh")) and c[i + 1].startswith(("hsize", "hexists", "hisfile", "hisdir", "hmtime"))
+                   for i in range(len(c) - 1)):
+                objq = objq + 1
+        elif any(l.startswith(("open", "put", "tput", "tapp")) for l in c) and not c[0].startswith("x"):
             hist += 1
             histlen += len(c)
         for l in c:
             t = l.split()
             ops[t[0]] = ops.get(t[0], 0) + 1
-            if t[0] in ("xput", "xseq", "xcopy", "xmove", "put", "tput", "tapp", "rawput", "w", "sb", "ss"):
+            if t[0] in ("xput", "xseq", "xobj", "hw", "happ", "hput", "hsh", "xcopy", "xmove", "put", "tput", "tapp", "rawput", "w", "sb", "ss"):
                 b = _bucket(tok_len(t[-1]))
                 sz[b] = sz.get(b, 0) + 1
             if t[0] in ("xlines", "xrl") and tok_len(t[1]) <= 100000 and t[1][0] not in "gt":
@@ -736,6 +898,7 @@ def distribution(cases):
                 k = "utf16le" if b[:2] == b"\xff\xfe" else "utf16be" if b[:2] == b"\xfe\xff" else "utf8bom" if b[:3] == b"\xef\xbb\xbf" else "none"
                 bom[k] += 1
     return {"ops_by_kind": ops, "written_sizes": sz, "line_ends": ends, "line_lengths": linelen, "xtext_by_bom": bom,
+            "object_histories": objh, "object_histories_with_query_right_after_write_while_open": objq,
             "histories": hist, "mean_history_length": round(histlen / hist, 1) if hist else 0}
 
 
@@ -773,11 +936,20 @@ LEVEL_TEXT = ("Proved in Lean 4 about the executable model the driver runs (AslM
               "constants (chunk, copy block, fopen mode strings, BOM bytes, size mask, UTF-16 byte order) are regenerated from /repo and the "
               "shape of every transcribed function is re-checked on each run (G); the model is tied to the real library, real files and the "
               "real libc by the correspondence check (K), and an independent python reference judges lines/text/round trips/copy/move.")
+LEVEL_TEXT += (" Persistent objects (lazily opened handle + cached stat information, transcribed from File.h/File.cpp/TextFile.cpp): after "
+               "close() every object, whatever it cached and wherever its handle stood, answers size/content/firstBytes/lines/text from the "
+               "path's current bytes (obj_after_close); stat-backed queries interleaved with writes on an open object change neither disk "
+               "nor handle (obj_history); open for WRITE, any sequence of writes and queries, close: size() is the number of bytes written "
+               "and content() exactly those bytes (obj_write_query_close).")
 LEVEL_NOTE = ("Hypotheses (modelled, exercised by K, not verified): stdio and POSIX behave as listed under `assumptions` (fopen modes, fwrite "
               "delivery by fclose, fgets/fread/feof, stat size, rename/EXDEV/unlink); files are observed after the writer is closed (a still-open "
               "writer's buffered bytes and its cached size are not an `afterwards` observation); the line theorems assume NUL-free content "
               "(readLine measures chunks with strlen; the model transcribes that and K covers NUL content, but no theorem speaks about it) and "
-              "files are < 2 GiB (text() masks the size). Partial: text_utf16_partial excludes "
+              "files are < 2 GiB (text() masks the size). What size() answers while an object has unflushed writes is not "
+              "compared (printed `?` by both sides; see the protocol comment in tools/props/c17.py); an object that cached the size while closed "
+              "and is never closed keeps answering from that cache when another object changes the file (documented state of File, modelled "
+              "faithfully, no theorem claims otherwise); a second content() on an object left open by the first reads from the handle's "
+              "position. Partial: text_utf16_partial excludes "
               "exactly the texts with an adjacent CR LF (known finding utf16-crlf-fold: deliberate folding in TextFile::text(), "
               "text_utf16_crlf_counterexample); paths are abstract (4 names in 2 directories: no symlinks/hard links, permissions or disk-full "
               "errors, so the failing-copy branch of the EXDEV move is in the model but never taken by K); printf/scanf/operator>> of "
